@@ -1,6 +1,32 @@
 import TinsModel.Wire.L2.ThChainStep
 /-
-  Whole-packet C03 for the L2 family (work in progress header; rewritten at the end)
+  **Whole-packet C03 for the L2 family, first half** — "parsing the serialization of a packet succeeds and yields the same
+  stack of layers with the same field values and payload bytes; only fields libtins derives may differ".
+
+  The per-class theorems `<cls>_reparse` (one layer written into its region and parsed back) are lifted through
+  `Wire.serializeObjs` (= `PDU::serialize` over the registry's chain) and `Wire.parseChain` (= the nested parsing
+  constructors) for stacks of **any depth**, by induction over the stack (`chain_reparse_aux`).
+
+  Covered: every stack of EthernetII, Dot1Q, SNAP, SLL, Dot3, LLC, Loopback, MPLS, PPPoE layers over an optional final
+  RawPDU that satisfies `Stackable` (ThChainStep.lean) — every layer satisfies its invariant (`ObjInv`: what parsing
+  establishes and every API call keeps) and is linked to its successor the way the protocols can express it (`Link`):
+    * EthernetII / Dot1Q / SNAP / SLL are followed by Dot1Q, MPLS or PPPoE (the classes of the family an EtherType names:
+      the writer derives the tag, `Tags.classOfEther` maps it back — `eth_tagFor_dispatch`, `headTag_tier`), or by a
+      RawPDU under a stored EtherType libtins does not dispatch on, or by nothing;
+    * Dot3 by LLC or nothing; Loopback by LLC, or by a RawPDU / nothing under a family the parser does not dispatch on;
+    * LLC (no XID information fields: KF-C04-L2-1) by a RawPDU (not under DSAP = SSAP = 0x42, which names STP) or nothing;
+    * MPLS by MPLS (bottom-of-stack clear), by a RawPDU (bit set, first nibble neither 4 nor 6) or nothing;
+    * PPPoE session (code 0, no tags) by a RawPDU of < 65536 bytes or nothing; PPPoE discovery (tags < 65536 bytes) by nothing.
+  **Minimum-frame padding is in play and accounted for exactly as `WireSpec.sameView` does**: the EthernetII pad-to-60 and
+  Dot1Q pad-to-50 trailers show up in the re-parsed packet as at most `padOf os` = Σ `trailer_size()` zero bytes at the
+  end of the innermost payload — all of them, or none when a PPPoE payload length cuts them off (`StepInner`, `padTo`);
+  with `padOf os = 0` the payload comes back byte for byte (`l2_chain_reparse_nopad`).
+  Not covered: chains that leave the family (IP, IPv6, ARP, EAPOL, STP below an L2 layer — the other families' per-class
+  theorems are lifted by their owners), PPI / PKTAP (not serializable).
+
+  Main statements:  `l2_chain_reparse`, `l2_chain_reparse_view`, `l2_chain_reparse_nopad`; for stacks with a non-empty
+  payload `chain_reparse_aux` also gives the re-parsed stack explicitly (`re`: every layer as `wr` = `write_serialization`
+  left it on the wire), which the second half (ThChainFixpoint.lean) builds on.
 -/
 namespace Tins.Wire.L2
 open Tins Tins.Wire
